@@ -184,8 +184,7 @@ func (c *FnCtx) calleeEnv(callee *ssa.Function, bindings, args []Val) map[string
 			if v.GT == nil {
 				v.GT = fv.Type()
 			}
-			names[fv.Name()] = v
-			// captured variable: name it also by deref
+			// captured variable: its name denotes the content of the captured cell
 			names["&"+fv.Name()] = v
 		}
 	}
@@ -341,14 +340,14 @@ func (c *FnCtx) assignRows(spec *FuncSpec, names map[string]Val, st map[string]s
 		switch bv.S {
 		case SSlice:
 			if st, ok := types.Unalias(bt).Underlying().(*types.Slice); ok {
-				n := "S|" + string(c.M.SortOf(st.Elem()))
+				n, _ := c.M.SliceHeap(st.Elem())
 				a.rows[n] = append(a.rows[n], "(s_ref "+bv.T+")")
 			}
 		case SInt:
 			switch u := types.Unalias(bt).Underlying().(type) {
 			case *types.Map:
-				ks, vs := c.M.SortOf(u.Key()), c.M.SortOf(u.Elem())
-				for _, n := range []string{"M|" + string(ks) + "|" + string(vs), "D|" + string(ks) + "|" + string(vs)} {
+				mn, dn, _, _, _ := c.M.MapHeaps(u)
+				for _, n := range []string{mn, dn} {
 					a.rows[n] = append(a.rows[n], bv.T)
 				}
 			case *types.Pointer:
@@ -361,7 +360,7 @@ func (c *FnCtx) assignRows(spec *FuncSpec, names map[string]Val, st map[string]s
 						}
 					}
 				} else {
-					n := "H|" + string(es)
+					n, _ := c.M.CellHeap(u.Elem())
 					a.rows[n] = append(a.rows[n], bv.T)
 				}
 			}
@@ -439,8 +438,7 @@ func (c *FnCtx) builtin(name string, cc *ssa.CallCommon, args []Val, resType typ
 			return Val{T: "(s_len " + a.T + ")", S: SInt}
 		case SInt:
 			if mt, ok := types.Unalias(cc.Args[0].Type()).Underlying().(*types.Map); ok {
-				ks, vs := c.M.SortOf(mt.Key()), c.M.SortOf(mt.Elem())
-				t := c.mapLen(c.st, ks, vs, a.T)
+				t := c.mapLen(c.st, mt, a.T)
 				n := c.freshConst("len", SInt)
 				c.fact(fmt.Sprintf("(and (= %s %s) (>= %s 0))", n, t, n))
 				return Val{T: n, S: SInt}
@@ -469,8 +467,7 @@ func (c *FnCtx) builtin(name string, cc *ssa.CallCommon, args []Val, resType typ
 	case "copy":
 		dst := args[0]
 		if st, ok := types.Unalias(cc.Args[0].Type()).Underlying().(*types.Slice); ok {
-			es := c.M.SortOf(st.Elem())
-			hn := "S|" + string(es)
+			hn, es := c.M.SliceHeap(st.Elem())
 			row := c.freshConst("row", Sort("(Array Int "+string(es)+")"))
 			c.setH(hn, fmt.Sprintf("(store %s (s_ref %s) %s)", c.H(hn), dst.T, row))
 			c.note("copy(): destination row havocked")
@@ -480,9 +477,8 @@ func (c *FnCtx) builtin(name string, cc *ssa.CallCommon, args []Val, resType typ
 		return v
 	case "delete":
 		m, k := args[0], args[1]
-		ks, vs, _ := c.mapSortsOf(cc.Args[0].Type())
-		dn := "D|" + string(ks) + "|" + string(vs)
-		c.heapSort("M|" + string(ks) + "|" + string(vs))
+		mn, dn, _, _, _ := c.M.MapHeaps(cc.Args[0].Type())
+		c.heapSort(mn)
 		// delete on nil map is a no-op
 		c.setH(dn, fmt.Sprintf("(ite (= %s 0) %s (store %s %s (store (select %s %s) %s false)))", m.T, c.H(dn), c.H(dn), m.T, c.H(dn), m.T, k.T))
 		return Val{S: "Tuple"}
@@ -501,8 +497,7 @@ func (c *FnCtx) builtin(name string, cc *ssa.CallCommon, args []Val, resType typ
 		}
 	case "clear":
 		if mt, ok := types.Unalias(cc.Args[0].Type()).Underlying().(*types.Map); ok {
-			ks, vs := c.M.SortOf(mt.Key()), c.M.SortOf(mt.Elem())
-			dn := "D|" + string(ks) + "|" + string(vs)
+			_, dn, ks, _, _ := c.M.MapHeaps(mt)
 			c.setH(dn, fmt.Sprintf("(ite (= %s 0) %s (store %s %s ((as const (Array %s Bool)) false)))", args[0].T, c.H(dn), c.H(dn), args[0].T, ks))
 			return Val{S: "Tuple"}
 		}
@@ -522,12 +517,12 @@ func (c *FnCtx) builtin(name string, cc *ssa.CallCommon, args []Val, resType typ
 func (c *FnCtx) appendBuiltin(cc *ssa.CallCommon, args []Val, resType types.Type) Val {
 	s, t := args[0], args[1]
 	var es Sort
+	var hn string
 	if st, ok := types.Unalias(resType).Underlying().(*types.Slice); ok {
-		es = c.M.SortOf(st.Elem())
+		hn, es = c.M.SliceHeap(st.Elem())
 	} else {
 		return c.havocVal("append", resType)
 	}
-	hn := "S|" + string(es)
 	rowS := Sort("(Array Int " + string(es) + ")")
 	h := c.H(hn)
 	var n string // number of appended elements
@@ -721,8 +716,7 @@ func orZero(s string) string {
 func (c *FnCtx) havocReachable(t types.Type, v Val) {
 	switch u := types.Unalias(t).Underlying().(type) {
 	case *types.Slice:
-		es := c.M.SortOf(u.Elem())
-		hn := "S|" + string(es)
+		hn, es := c.M.SliceHeap(u.Elem())
 		if v.T != "" {
 			row := c.freshConst("row", Sort("(Array Int "+string(es)+")"))
 			c.setH(hn, fmt.Sprintf("(store %s (s_ref %s) %s)", c.H(hn), v.T, row))
@@ -736,17 +730,18 @@ func (c *FnCtx) havocReachable(t types.Type, v Val) {
 				c.havocHeap(hn)
 			}
 		} else if v.Place == nil {
-			c.heapSort("H|" + string(es))
-			c.havocHeap("H|" + string(es))
+			hn, _ := c.M.CellHeap(u.Elem())
+			c.heapSort(hn)
+			c.havocHeap(hn)
 		} else {
 			c.storePlace(v.Place, c.freshConst("ext", v.Place.Sort))
 		}
 	case *types.Map:
-		ks, vs := c.M.SortOf(u.Key()), c.M.SortOf(u.Elem())
-		c.heapSort("M|" + string(ks) + "|" + string(vs))
-		c.heapSort("D|" + string(ks) + "|" + string(vs))
-		c.havocHeap("M|" + string(ks) + "|" + string(vs))
-		c.havocHeap("D|" + string(ks) + "|" + string(vs))
+		mn, dn, _, _, _ := c.M.MapHeaps(u)
+		c.heapSort(mn)
+		c.heapSort(dn)
+		c.havocHeap(mn)
+		c.havocHeap(dn)
 	case *types.Interface:
 		// an interface argument may wrap a pointer/map/slice: havoc everything
 		c.havocAll("external may write through interface argument")
